@@ -34,12 +34,12 @@ func (c *Ctx) moduleCallees(root *load.FuncInfo, samePkgOnly bool) []*load.FuncI
 	var order []*load.FuncInfo
 	var visit func(fi *load.FuncInfo)
 	visit = func(fi *load.FuncInfo) {
-		if fi == nil || seen[fi] || fi.Decl.Body == nil {
+		if fi == nil || seen[fi] || fi.Body() == nil {
 			return
 		}
 		seen[fi] = true
 		order = append(order, fi)
-		for _, call := range astx.Calls(fi.Decl.Body, true) {
+		for _, call := range astx.Calls(fi.Body(), true) {
 			fn := astx.Callee(fi.Pkg.TypesInfo, call)
 			if fn == nil {
 				continue
@@ -272,13 +272,13 @@ func (c *Ctx) c03TimeCodec(marshal, unmarshal *load.FuncInfo) {
 	}
 	// encoder: which time.Time method produces UnixNano field
 	encMethods := map[string]bool{}
-	for _, call := range astx.Calls(enc.Decl.Body, false) {
+	for _, call := range astx.Calls(enc.Body(), false) {
 		if fn := astx.Callee(enc.Pkg.TypesInfo, call); fn != nil && astx.RecvNamed(fn) != nil && astx.RecvNamed(fn).Obj().Pkg().Path() == "time" {
 			encMethods[fn.Name()] = true
 		}
 	}
 	decShape := ""
-	for _, call := range astx.Calls(dec.Decl.Body, false) {
+	for _, call := range astx.Calls(dec.Body(), false) {
 		fn := astx.Callee(dec.Pkg.TypesInfo, call)
 		if fn == nil || fn.Pkg() == nil || fn.Pkg().Path() != "time" {
 			continue
@@ -302,14 +302,14 @@ func (c *Ctx) c03TimeCodec(marshal, unmarshal *load.FuncInfo) {
 			decShape = "UnixMicro"
 		}
 	}
-	pos := c.P.Pos(dec.Decl.Pos())
+	pos := c.P.Pos(dec.Node().Pos())
 	r.Check(decShape != "" && encMethods[decShape], "C03.K3", dec.Name(), "time encoding matches timeToTimestamp", pos,
 		"encoder calls Time."+decShape+"(), decoder rebuilds with the matching constructor",
 		"timeToTimestamp and timestampToTime disagree on the time encoding (decoder shape "+decShape+")")
 	// the zero-time flag must be honoured: decoder tests IsZero before building the time
 	info := dec.Pkg.TypesInfo
 	isZeroTested := false
-	ast.Inspect(dec.Decl.Body, func(n ast.Node) bool {
+	ast.Inspect(dec.Body(), func(n ast.Node) bool {
 		if ifs, ok := n.(*ast.IfStmt); ok {
 			ast.Inspect(ifs.Cond, func(m ast.Node) bool {
 				if se, ok := m.(*ast.SelectorExpr); ok {
@@ -325,7 +325,7 @@ func (c *Ctx) c03TimeCodec(marshal, unmarshal *load.FuncInfo) {
 	r.Check(isZeroTested, "C03.K3", dec.Name(), "zero time flag honoured", pos, "decoder branches on Timestamp.IsZero",
 		"timestampToTime does not branch on IsZero: a zero time would load as 1970-01-01")
 	encZero := encMethods["IsZero"]
-	r.Check(encZero, "C03.K3", enc.Name(), "zero time flag recorded", c.P.Pos(enc.Decl.Pos()), "encoder stores t.IsZero()",
+	r.Check(encZero, "C03.K3", enc.Name(), "zero time flag recorded", c.P.Pos(enc.Node().Pos()), "encoder stores t.IsZero()",
 		"timeToTimestamp does not record t.IsZero()")
 }
 
@@ -340,11 +340,11 @@ func (c *Ctx) c03SessionKey() {
 	}
 	count := 0
 	for _, fi := range c.P.FuncsIn("ircserver") {
-		if fi.Decl.Body == nil {
+		if fi.Body() == nil {
 			continue
 		}
 		info := fi.Pkg.TypesInfo
-		ast.Inspect(fi.Decl.Body, func(n ast.Node) bool {
+		ast.Inspect(fi.Body(), func(n ast.Node) bool {
 			as, ok := n.(*ast.AssignStmt)
 			if !ok || len(as.Lhs) != 1 || len(as.Rhs) != 1 {
 				return true
@@ -431,12 +431,12 @@ func (c *Ctx) c03NickIndex() {
 		"ircserver.(*IRCServer).cmdServerNick": "services introduce their own clients; protocol-conforming input is a stated assumption of C06",
 	}
 	for _, fi := range c.P.FuncsIn("ircserver") {
-		if fi.Decl.Body == nil {
+		if fi.Body() == nil {
 			continue
 		}
 		info := fi.Pkg.TypesInfo
 		var sites []*ast.AssignStmt
-		ast.Inspect(fi.Decl.Body, func(n ast.Node) bool {
+		ast.Inspect(fi.Body(), func(n ast.Node) bool {
 			if as, ok := n.(*ast.AssignStmt); ok && len(as.Lhs) == 1 {
 				if ie, ok := ast.Unparen(as.Lhs[0]).(*ast.IndexExpr); ok {
 					if se, ok := ast.Unparen(ie.X).(*ast.SelectorExpr); ok && astx.FieldSel(info, se) == nicks {
@@ -506,11 +506,11 @@ func (c *Ctx) c03ServerSessions() {
 		return
 	}
 	for _, fi := range c.P.FuncsIn("ircserver") {
-		if fi.Decl.Body == nil {
+		if fi.Body() == nil {
 			continue
 		}
 		info := fi.Pkg.TypesInfo
-		ast.Inspect(fi.Decl.Body, func(n ast.Node) bool {
+		ast.Inspect(fi.Body(), func(n ast.Node) bool {
 			as, ok := n.(*ast.AssignStmt)
 			if !ok || len(as.Lhs) != 1 {
 				return true
@@ -562,7 +562,7 @@ func (c *Ctx) c03ModeLoops(fns ...*load.FuncInfo) {
 	r := c.R
 	for _, fi := range fns {
 		info := fi.Pkg.TypesInfo
-		ast.Inspect(fi.Decl.Body, func(n ast.Node) bool {
+		ast.Inspect(fi.Body(), func(n ast.Node) bool {
 			fs, ok := n.(*ast.ForStmt)
 			if !ok || fs.Cond == nil || fs.Init == nil {
 				return true
